@@ -20,3 +20,7 @@ CHECKS["C04"] = ("exploration", "exhaustive enumeration of distances x spellings
    "Complete product: every branch mnemonic x every byte distance -300..+300 x 8 target spellings, sob x 8 registers x every distance -140..+6 x the same spellings (accept iff even and within reach, then exact field; otherwise the run must fail with an error), and PC-relative operands in 7 placements x 13 targets x 4 link bases (incl. wrap-around) whose effective address is recomputed by the independent decoder. Both limits are bracketed by complete enumeration, which is what the property's boundary claims need.",
    "Trusted: pdpmc/ref/isa.py opcodes/decoder. Which of the two error kinds is reported is not demanded.",
    "DESIGN.md 5/C04")
+CHECKS["C05"] = ("exploration", "exhaustive enumeration of expression trees (<= 3 infix operators, all shapes/bracketings/styles, prefix positions, spines to depth 6, literal spellings) on the real assembler against an independent evaluator",
+   "Everything the operator-precedence loop can distinguish is enumerated completely: all 1884 infix sequences of length <= 3 x all tree shapes x full and minimal bracketing x 3 bracket styles x 3 leaf tuples; every prefix operator in every grammatical position; depth-6 spines for all operator pairs; every literal spelling x boundary values; 8/9, /0 and negative-shift rejection; each under six leaf regimes (constants, symbols before/after, address-valued with the base settled first/last/defaulted, symbols assigned address expressions before their labels exist). Values are read back through .dword or 16-bit slices. 'All trees to depth 6' is unbounded; the bound actually completed is stated in the evidence.",
+   "Trusted: pdpmc/ref/expr.py (documented semantics, vectors in selftest). Trees whose reference value exceeds 2**8192 (or would after an error substitute) are not generated (resource guard, see DESIGN).",
+   "DESIGN.md 5/C05")
